@@ -219,6 +219,45 @@ def query_arith(k0, k1, v0, v1):
     return 'ok'
 
 
+@cond('C02.query.repeated-aggregate', quick=180, thorough=600,
+      bounds='2 rows (k in {NULL,0,1}, v symbolic int or NULL); the same aggregate written more than once: SELECT k, sum(v) + sum(v), '
+             'max(v) - min(v) + max(v), count(*) + count(*), sum(v) GROUP BY k [HAVING count(v) + count(v) > 1]: every occurrence '
+             'is the fold of its group',
+      symbolic='v cells, HAVING presence', enumerated='k cells',
+      params={'k0': int, 'k1': int, 'v0': Optional[int], 'v1': Optional[int], 'having': bool})
+def query_repeated_aggregate(k0, k1, v0, v1, having):
+    rows = [(KEYDOM.build('k', {'k': k0}), v0), (KEYDOM.build('k', {'k': k1}), v1)]
+    columns = [('k', int), ('v', int)]
+    S, MX, MN, CS, CV = (lambda: func('sum', col('v'))), (lambda: func('max', col('v'))), (lambda: func('min', col('v'))), \
+        (lambda: func('count', ast.Asterisk())), (lambda: func('count', col('v')))
+    hv = ast.Greater(ast.Add(CV(), CV()), const(1)) if having else None
+    stmt = sel([target(col('k')), target(ast.Add(S(), S()), 'a'), target(ast.Add(ast.Sub(MX(), MN()), MX()), 'b'),
+                target(ast.Add(CS(), CS()), 'c'), target(S(), 'd')], 't', group_by=ast.GroupBy([1], hv))
+    cur, got, want = _run_both(stmt, rows, columns)
+    if not same_rows(got, want.rows):
+        return 'repeated-aggregate'
+    return 'ok'
+
+
+@cond('C02.query.group-without-aggregates', quick=180, thorough=600,
+      bounds='3 rows (k, j in {NULL,0,1} enumerated); GROUP BY without any aggregate: SELECT k GROUP BY k, j (hidden key j), '
+             'SELECT k, j GROUP BY k, j, SELECT j GROUP BY 1, k: exactly one row per group, also when groups agree on the visible '
+             'columns',
+      symbolic='(none)', enumerated='cells, statement form', params={**{f'{c}{i}': int for c in 'kj' for i in range(3)}, 'form': int})
+def query_group_without_aggregates(form, **kw):
+    rows = [(KEYDOM.build(f'k{i}', kw), KEYDOM.build(f'j{i}', kw)) for i in range(3)]
+    columns = [('k', int), ('j', int)]
+    stmt = pick([
+        lambda: sel([target(col('k'))], 't', group_by=ast.GroupBy([col('k'), col('j')], None)),
+        lambda: sel([target(col('k')), target(col('j'))], 't', group_by=ast.GroupBy([col('k'), col('j')], None)),
+        lambda: sel([target(col('j'))], 't', group_by=ast.GroupBy([1, col('k')], None)),
+    ], form)()
+    cur, got, want = _run_both(stmt, rows, columns)
+    if not same_rows(got, want.rows):
+        return 'one-row-per-group'
+    return 'ok'
+
+
 @cond('C02.query.no-group', quick=120,
       bounds='<=3 rows of (v symbolic int or NULL, w symbolic bool or NULL); SELECT count(*), count(v), sum(v), min(v), '
              'max(v) [WHERE w] without GROUP BY: one row over the whole selection',
